@@ -309,6 +309,7 @@ def run(ctx, rep_):
     fields_are_initialised(F, rep_)
     class_callable_only_from_module(F, rep_)
     loop_counter_type(F, rep_)
+    loop_counter_start_kind(F, rep_)
     names_have_element_types(F, rep_)
     # a name is one variable per function at run time: the declaration parsers ask for an existing binding function-wide (shared with C10)
     from props import C10 as _c10
@@ -614,6 +615,42 @@ def loop_counter_type(F, rep, rule="C02.loop-counter-type"):
         rep.ob(rule, "the loop counter is registered with the type of start + step", "ok" if computed else "violated",
                "" if computed else "the counter's type does not come from get_output_type (origins %s): `from 0.0 to 1.0 step 0.5, i` gives an `int` that holds 0.5"
                % sorted(str(o) for o in org)[:3], c.span, fn=nl.path, key="%s|#%d" % (rule, i))
+
+
+def loop_counter_start_kind(F, rep, rule="C02.loop-counter-type"):
+    """... and the first value the counter holds is the start value: when start + step is of a wider kind than start (`from 0 to 2 step 0.5`),
+    Parser::number_loop has to ask for a promotion (the NumberLoop it builds carries a zero of the counter's kind, which the generator adds
+    to the start value: C09.skeleton|from|start-promotion).  Structural part here: the promotion field of the NumberLoop aggregate is not a
+    constant: it can be Some(number) and it depends on a comparison of types."""
+    nl = None
+    for g in F.crates["compiler"].fns:
+        if g.path.endswith("::number_loop") and "impl compiler::parser::Parser" in g.path and g.kind != "Closure":
+            nl = g
+    if nl is None:
+        raise AnchorMissing("Parser::number_loop")
+    a = F.adt("compiler::ast::number_loop::NumberLoop")
+    fields = [x["name"] for x in a["variants"][0]["fields"]] if a else []
+    aggs = [(bi, rv, st) for bi, si, dst, rv, st in nl.assigns() if "agg" in rv and str(rv["agg"].get("adt", "")).endswith("number_loop::NumberLoop")]
+    rep.floor(rule + " NumberLoop constructions", len(aggs), 1)
+    for bi, rv, st in aggs:
+        cand = [i for i, nme in enumerate(fields) if "promot" in nme]
+        ok, why = False, "NumberLoop has no promotion field"
+        for i in cand:
+            l = op_local(rv["ops"][i]) if i < len(rv["ops"]) else None
+            org = rules.origins(nl, l, transparent=rules.TRANSPARENT) if l is not None else set()
+            somes = 0
+            for o in org:
+                if o[0] == "agg":
+                    for b2, s2, d2, rv2, st2 in nl.assigns():
+                        if (b2, s2) == (o[1], o[2]) and rv2["agg"].get("v") == "Some":
+                            somes += 1
+            eqs = [c for c in nl.calls() if c.matches(("core::cmp::PartialEq::eq", "core::cmp::PartialEq::ne")) and
+                   "TypeLayout" in (c.callee() + " " + " ".join(c.t["func"].get("ga") or []) + " " + (c.t["func"].get("res") or ""))]
+            ok = somes > 0 and bool(eqs)
+            why = "" if ok else "the promotion is constant (Some constructions: %d, comparisons of types: %d)" % (somes, len(eqs))
+        rep.ob(rule, "number_loop asks for the start value to be promoted when the counter is of a wider kind", "ok" if ok else "violated",
+               why + ("" if ok else ": `from 0 to 2 step 0.5, i { print i.fpart() }` starts with the int 0, which has no fractional part to take"), st.get("sp"), fn=nl.path,
+               key=rule + "|start-kind")
 
 
 def opassign_result_storable(F, rep, rule="C02.opassign-result"):
